@@ -35,12 +35,16 @@ TQuiesce == /\ IsEvent("quiesce")
             /\ viol' = viol \cup (IF AllAckedStored THEN {} ELSE {V("lost", Missing)})
             /\ UNCHANGED <<submitted, acked, stored>>
 TOverwrite == IsEvent("overwrite") /\ Unstore(E.rows) /\ UNCHANGED viol
+TFlushRet == /\ IsEvent("flushret")
+             /\ viol' = viol \cup (IF FlushAckHonest(E.ok, SetOf(E.rows), E.what = "wal=off") THEN {}
+                                   ELSE {V("flush-acknowledged-although-rows-dropped", SetOf(E.rows))})
+             /\ UNCHANGED <<submitted, acked, stored>>
 TInfo  == IsEvent("info") /\ UNCHANGED <<submitted, acked, stored, viol>>
 TEnd   == /\ IsEvent("end")
           /\ submitted' = {} /\ acked' = {} /\ stored' = <<>> /\ viol' = {}
           /\ PrintT(<<"TRACE", ToJson([run |-> E.run, viol |-> viol])>>)
 
-TraceNext == TCall \/ TRet \/ TStore \/ TStoreFail \/ TQuiesce \/ TOverwrite \/ TInfo \/ TEnd
+TraceNext == TCall \/ TRet \/ TStore \/ TStoreFail \/ TQuiesce \/ TOverwrite \/ TFlushRet \/ TInfo \/ TEnd
 TraceSpec == TraceInit /\ [][TraceNext]_<<submitted, acked, stored, viol, l>>
 HW == TLCSet(1, IF l > TLCGet(1) THEN l ELSE TLCGet(1))
 TraceAccepted == IF TLCGet(1) = Len(Trace) + 1 THEN TRUE
